@@ -457,6 +457,34 @@ func check(prop string, args []string) int {
 			}
 		}
 	}
+	// a counterexample that did not reproduce in the shared test process may depend on state
+	// the library keeps between calls (package-level caches, pools): the engine predicted it
+	// from the program's initial state, so it is tried once more alone in a fresh process
+	if nativeOK && unreproduced > 0 {
+		retried := 0
+		for i, r := range results {
+			v := vf.Vectors[i]
+			if v.Purpose != "violation" || strings.Contains(v.ID, "no-shared-write") || (r.Match && !r.Skipped) || seenViol[v.ID] >= 3 || retried >= 12 {
+				continue
+			}
+			retried++
+			one := &vecFile{Known: vf.Known, Tier: vf.Tier, Vectors: []nativeVect{v}}
+			fwork := filepath.Join(work, "fresh")
+			os.MkdirAll(fwork, 0o755)
+			fres, _, ferr := runNative(prop, allH, one, fwork, false)
+			if ferr != nil || len(fres) != 1 || !fres[0].Match || fres[0].Skipped {
+				continue
+			}
+			seenViol[v.ID]++
+			os.MkdirAll(replayDir, 0o755)
+			rp := filepath.Join(replayDir, fmt.Sprintf("%s-%d.json", sanitize(v.ID), seenViol[v.ID]))
+			b, _ := json.MarshalIndent(v, "", " ")
+			os.WriteFile(rp, b, 0o644)
+			violLines = append(violLines, fmt.Sprintf("VIOLATION property=%s replay=%s obligation=%s harness=%s (reproduced in a fresh process)", prop, rp, v.ID, v.Harness))
+			violations++
+			unreproduced--
+		}
+	}
 	// shared-write counterexamples (C12) cannot fail natively in a sequential run: confirm them
 	// by running the operation in several goroutines under the race detector
 	if nativeOK && unreproduced > 0 {
